@@ -2,3 +2,6 @@ package graphgen
 
 // OraclePregel is the direct oracle of C01 (filled in below); "" = holds.
 func OraclePregel(c *Case, o *Obs) (string, string) { return "", "" }
+
+// OracleDAG is the direct oracle of C02 (filled in below); "" = holds.
+func OracleDAG(c *Case, o *Obs) (string, string) { return "", "" }
